@@ -10,3 +10,43 @@ def run(repo, report, tier):
 
     report.guard("C11.R2", "predicates", r2_criteria, repo, report)
     report.guard("C11.R3", "filter steps", r3_first_wins, repo, report)
+    report.guard("C11.R2", "quality base of the error filters", r2_quality_base, repo, report)
+
+
+def r2_quality_base(repo, report, rule="C11.R2"):
+    """The expected-error criteria are sums of 10^(-Q/10) with Q = ord(char) - quality base: every predicate that calls
+    expected_errors() passes the base it was constructed with, and the builder constructs it with --quality-base."""
+    import ast
+    import re
+
+    from ..repo import chain, params, src
+    from . import builder_rules
+
+    n = 0
+    for cls in repo.subclasses("Predicate"):
+        test = cls.methods.get("test")
+        if test is None:
+            continue
+        ees = [x for x in ast.walk(test) if isinstance(x, ast.Call) and chain(x.func) == "expected_errors"]
+        if not ees:
+            continue
+        n += 1
+        init = cls.methods.get("__init__")
+        ip = params(init)[1:] if init is not None else []
+        stored = {src(x.value): chain(x.targets[0]) for x in ast.walk(init) if isinstance(x, ast.Assign) and isinstance(x.value, ast.Name) and chain(x.targets[0])} if init is not None else {}
+        base_attrs = {stored[p_] for p_ in ip if p_ in stored and "base" in p_}
+        passed = []
+        for c_ in ees:
+            extra = [src(a) for a in c_.args[1:]] + [src(k.value) for k in c_.keywords if k.arg == "base"]
+            passed.append(extra)
+        ok = bool(base_attrs) and all(len(e) == 1 and e[0] in base_attrs for e in passed)
+        report.ob(rule, f"{cls.name}.test interprets qualities with the configured base", ok, facts={"expected_errors_calls": [src(c_) for c_ in ees], "base_attribute": sorted(base_attrs)},
+                  expected="expected_errors(read.qualities, self.<quality base given to the constructor>)", loc=repo.loc(test),
+                  why="" if ok else "the qualities are always decoded with base 33: with --quality-base 64 a read of Q10 bases is taken for Q41 and passes --max-ee / --max-aer")
+        # the builder passes --quality-base
+        for paired in (False, True):
+            mdl = builder_rules.model(repo, paired)
+            terms = sorted({mm.group(0) for _, _, _, _, sl in mdl.slots("steps") for mm in re.finditer(re.escape(cls.name) + r"\([^()]*\)", sl.key)})
+            okb = bool(terms) and all("args.quality_base" in t for t in terms)
+            report.ob(rule, f"{'paired' if paired else 'single'}: {cls.name} is built with --quality-base", okb, facts={"terms": terms[:3]}, expected=f"{cls.name}(<threshold>, args.quality_base)", loc="src/cutadapt/cli.py")
+    report.floor(rule, "predicates that compute expected errors", n, 2)
